@@ -283,9 +283,12 @@ class BoundingBox(Sequence[float]):
         :param transform: Affine mapping from pixel to world
         :param crs: CRS
         """
-        p1 = transform * (0, 0)
-        p2 = transform * shape_(shape).xy
-        return BoundingBox.from_points(p1, p2, crs=crs)
+        nx, ny = shape_(shape).xy
+        # need all 4 corners when transform has rotation/shear
+        pts = [transform * pt for pt in [(0, 0), (nx, 0), (nx, ny), (0, ny)]]
+        xx = [x for x, _ in pts]
+        yy = [y for _, y in pts]
+        return BoundingBox(min(xx), min(yy), max(xx), max(yy), crs)
 
     @property
     def aoi(self) -> AreaOfInterest:
